@@ -304,9 +304,9 @@ def value_eq(a, b):
             return True
         except ValueError:
             return False
-    if isinstance(a, list) and isinstance(b, (list, tuple)) and type(a) is not type(b):
-        # typed proxies compare as their built-in; an untyped list field keeps a tuple as given
-        if not (isinstance(b, list) or type(a) is list):
+    if isinstance(a, (list, tuple)) and isinstance(b, (list, tuple)) and not hasattr(a, "_fields") and not hasattr(b, "_fields"):
+        # typed proxies compare as their built-in list; list vs tuple is a type difference
+        if isinstance(a, tuple) != isinstance(b, tuple):
             return False
         return len(a) == len(b) and all(value_eq(x, y) for x, y in zip(a, b))
     if isinstance(a, dict) and isinstance(b, dict):
@@ -317,8 +317,6 @@ def value_eq(a, b):
             if not match or not value_eq(v, b[match[0]]):
                 return False
         return True
-    if isinstance(a, (list, tuple)) and isinstance(b, (list, tuple)):
-        return type(a) is type(b) or isinstance(a, list) and isinstance(b, list)
     if isinstance(a, float) and isinstance(b, float):
         if math.isnan(a) or math.isnan(b):
             return math.isnan(a) and math.isnan(b)
@@ -340,3 +338,5 @@ def selftest():
     assert ref({"kind": "bool"}, "YES") == (A, True)
     assert ref({"kind": "list", "item": {"kind": "int", "opts": {}}}, ["1", 2]) == (A, [1, 2])
     assert ref({"kind": "port", "opts": {}}, 65536)[0] == REJ
+    assert value_eq([1, "a"], [1, "a"]) and not value_eq([1], [2]) and not value_eq([1], (1,)) and not value_eq([True], [1])
+    assert value_eq({"a": [1.0]}, {"a": [1.0]}) and not value_eq({"a": [1.0]}, {"a": [1]})
